@@ -769,6 +769,7 @@ func C04() *engine.Check {
 			c04RealSubZ("real-clock-zone-west", "sound", 2, 3, time.FixedZone("verif-west", -11*3600), 2*time.Hour),
 			c04RealSubZ("real-clock-zone-east", "sound", 2, 3, time.FixedZone("verif-east", 13*3600+1800), 2*time.Hour),
 			c04RealEnvSub("real-clock-hostile-environment", "sound"),
+			clockSub("C04"),
 			longChainSub("C04"),
 			c04EpochSub(),
 			c04AcrossExpirySub(),
